@@ -13,6 +13,7 @@
  *   VERIF_ENT_HEX=<hex>      bytes served front to back in hex mode (then prng)
  *   VERIF_ENT_FAIL_AT=<k>    k-th getentropy call (1-based) returns -1, errno=EIO
  *   VERIF_ENT_FAIL_FROM=<k>  every getentropy call from the k-th on fails
+ *   VERIF_ENT_ERRNO=<n>      errno reported by an injected failure (default 5 = EIO)
  *   VERIF_ENT_CAP=<n>        after n getentropy calls the process _exit(97)s (logical-step bound)
  *   VERIF_ENT_DELAY=<o>:<usec>[,<o>:<usec>...]  usleep before serving a call made by thread ordinal o
  *                            ("*" = every ordinal not listed)
@@ -36,7 +37,7 @@ static int g_mode = 0; /* 0 pass 1 zero 2 ones 3 counter 4 prng 5 hex */
 static uint64_t g_seed = 0;
 static unsigned char *g_hex = NULL;
 static size_t g_hexlen = 0, g_hexpos = 0;
-static long g_fail_at = 0, g_fail_from = 0, g_cap = 0;
+static long g_fail_at = 0, g_fail_from = 0, g_cap = 0, g_errno = EIO;
 static long g_seq = 0;     /* getentropy calls */
 static long g_rseq = 0;    /* getrandom calls */
 static long g_delay[256];
@@ -86,6 +87,8 @@ static void init_locked(void) {
     if (p) g_fail_at = atol(p);
     p = getenv("VERIF_ENT_FAIL_FROM");
     if (p) g_fail_from = atol(p);
+    p = getenv("VERIF_ENT_ERRNO");
+    if (p && atol(p) > 0) g_errno = atol(p);
     p = getenv("VERIF_ENT_CAP");
     if (p) g_cap = atol(p);
     for (int i = 0; i < 256; i++) g_delay[i] = -1;
@@ -176,7 +179,7 @@ int getentropy(void *buffer, size_t len) {
     if (delay > 0) usleep((useconds_t)delay);
     if (fail || len > 256) {
         log_record('E', seq, ord, len, -1, NULL);
-        errno = EIO;
+        errno = fail ? (int)g_errno : EIO;
         return -1;
     }
     int ret;
